@@ -50,7 +50,9 @@ func nodeWrites(info *types.Info, n ast.Node, includeLits bool) []fieldAccess {
 	}
 	walk := inspectNoLit
 	if includeLits {
-		walk = func(n ast.Node, fn func(ast.Node) bool) { ast.Inspect(n, func(x ast.Node) bool { return x != nil && fn(x) }) }
+		walk = func(n ast.Node, fn func(ast.Node) bool) {
+			ast.Inspect(n, func(x ast.Node) bool { return x != nil && fn(x) })
+		}
 	}
 	walk(n, func(x ast.Node) bool {
 		switch s := x.(type) {
